@@ -142,6 +142,7 @@ def run_check(prop, mod, tier, t0) -> int:
         "hypothesis_hits": res.get("hypothesis_hits", {}),
         "input_distribution": res.get("input_distribution", {}),
         "out_of_domain": res.get("out_of_domain", {}),
+        "heuristic_correspondence": res.get("heuristic_correspondence"),
         "known_findings_replayed": res.get("known", []),
         "exhaustive": res.get("exhaustive", False),
         "partial": common.obligations().get(prop, {}).get("partial", []),
